@@ -38,9 +38,12 @@ def render(P, ic, cseed):
     return src, info["stmt_last"]
 
 
-def one_config(P, sd, ic, cseed, mons=None):
+def one_config(P, sd, ic, cseed, mons=None, raw=None):
     """Returns (violation or None, source)."""
-    src, linemap = render(P, ic, cseed)
+    if raw is not None:
+        src, linemap = raw, None
+    else:
+        src, linemap = render(P, ic, cseed)
     r1 = parse_monitored(src, sd, ignore_comments=ic)
     if mons is not None:
         mons["stream_next"] += r1.n_next
@@ -79,6 +82,11 @@ def one_config(P, sd, ic, cseed, mons=None):
 
 
 def check(payload):
+    if payload.get("mode") == "source":
+        from ..gen.model import Program
+
+        v, _ = one_config(Program([], payload["std"]), payload["std"], payload.get("ic", True), 0, raw=payload["text"])
+        return {"violations": [v] if v else [], "digests": [], "monitors": {"roundtrips": 1}, "tally": {}}
     P = payload_program(payload)
     std = payload["std"]
     cseed = payload.get("comments_seed", 0)
@@ -112,6 +120,7 @@ def check(payload):
         Q = shrink_program(P, still)
         w, qsrc = one_config(Q, sd, ic, cseed)
         v["shrunk"] = {"source": qsrc, "detail": w["detail"] if w else None, "config": [sd, ic]}
+        v["payload"] = dict(payload, program=Q.to_json(), configs=[[sd, ic]])
         viols.append(v)
     return {"violations": viols, "digests": digs, "tally": tally, "monitors": mons,
             "sample": {"std": std, "source": P.canonical()[:1500]}}
